@@ -328,11 +328,11 @@ def run(ctx):
     rnd = ctx.rng
     table_oracle(ctx)
     pending = []
-    for k in range(ctx.n(250, 2500)):
+    for k in range(ctx.n(600, 5000)):
         one_case(ctx, rnd, pending)
         if len(pending) >= 200:
             flush(ctx, pending)
-    for k in range(ctx.n(30, 200)):
+    for k in range(ctx.n(60, 300)):
         one_case(ctx, rnd, pending, 'misaligned')
     flush(ctx, pending)
     for k in range(ctx.n(10, 50)):
